@@ -53,7 +53,7 @@ Value& SUBRAWExpression::value(Context & ctx) const
     case Type::NUMERIC:
       if (a1.isNull())
         return val;
-      a = Integer(*a1.numeric());
+      a = Value::toInteger(*a1.numeric());
       break;
     default:
       throw RuntimeError(EXC_RT_FUNC_ARG_TYPE_S, KEYWORDS[oper]);
@@ -78,7 +78,7 @@ Value& SUBRAWExpression::value(Context & ctx) const
       case Type::NUMERIC:
         if (a2.isNull())
           return val;
-        b = Integer(*a2.numeric());
+        b = Value::toInteger(*a2.numeric());
         break;
       default:
         throw RuntimeError(EXC_RT_FUNC_ARG_TYPE_S, KEYWORDS[oper]);
